@@ -16,5 +16,7 @@ CONSTANTS
   MaxPairs = 3
   MaxNodes = 10
   MaxSteps = 14
+  COrigins = {}
+  SOrigins = {}
 INVARIANT WalkEmit
 CHECK_DEADLOCK FALSE
